@@ -12,6 +12,8 @@ import (
 	"encoding/json"
 	"fmt"
 	"hash/fnv"
+	"io"
+	"log/slog"
 	"math/rand"
 	"os"
 	"path/filepath"
@@ -58,6 +60,7 @@ func c13DumpCase(args []string) int {
 }
 
 const (
+	c13FaultEvery  = 3
 	c13AloneBudget = 48
 	c13Quick       = 3000
 	c13Thorough    = 40000
@@ -395,6 +398,13 @@ func c13Cases(c *core.Ctx, n int) []c13Case {
 	for i := 0; len(cases) < n; i++ {
 		cases = append(cases, c13Gen(c.Rand("c13", i)))
 	}
+	// Undelivered-slice scenario on every third case whose query is cut into
+	// slices. Drawn from its own stream: the cases themselves stay what they were.
+	for i := range cases {
+		if r := c.Rand("c13-fault", i); r.Intn(c13FaultEvery) == 0 {
+			cases[i].Fault = c13FaultPlan(r, &cases[i])
+		}
+	}
 	return cases
 }
 
@@ -429,6 +439,8 @@ func c13Child(args []string) int {
 		return 64
 	}
 	workers, _ := strconv.Atoi(args[2])
+	// the client logs every failed slice request; the fault scenario produces thousands
+	slog.SetDefault(slog.New(slog.NewTextHandler(io.Discard, &slog.HandlerOptions{Level: slog.LevelError + 8})))
 	outF, err := os.OpenFile(args[1], os.O_CREATE|os.O_WRONLY|os.O_TRUNC, 0o644)
 	if err != nil {
 		fmt.Fprintln(os.Stderr, err)
@@ -668,6 +680,34 @@ func (a *c13Agg) outcome(o c13Outcome) {
 			run.Distinct("presence_patterns", f)
 		}
 	}
+	if cs.Fault != nil {
+		run.Count("undelivered_slice_cases_planned", 1)
+	}
+	if fo := o.Fault; fo != nil {
+		run.Count("undelivered_slice_cases_run", 1)
+		run.Count("undelivered_slice_outcome_"+fo.Outcome, 1)
+		if fo.Undelivered > 0 {
+			run.Count("undelivered_slice_cases_slice_really_undelivered", 1)
+			run.Count("undelivered_slice_requests", int64(fo.Undelivered))
+			run.Distinct("undelivered_slice_kinds", fo.Kind)
+			run.Distinct("undelivered_slice_kind_x_position", fo.Kind+":"+fo.Position)
+			if fo.ErrClass != "" {
+				run.Distinct("undelivered_slice_kind_x_error_returned", fo.Kind+":"+fo.ErrClass)
+			}
+			if fo.Slices >= 2 && fo.Answered >= 1 {
+				run.Count("undelivered_slice_cases_with_other_slices_answered", 1)
+				if fo.HoldSamples {
+					run.Count("undelivered_slice_cases_with_other_slices_answered_and_samples_in_lost_slice", 1)
+					run.Distinct("undelivered_slice_kinds_discriminating", fo.Kind)
+					run.Count("undelivered_slice_useful_cases_kind_"+fo.Kind, 1)
+				}
+			}
+			run.Count("undelivered_slice_recovery_"+fo.Recovery, 1)
+			if fo.Outcome == "complete-result" {
+				run.Distinct("undelivered_slice_kinds_with_complete_result", fo.Kind)
+			}
+		}
+	}
 	if o.Idx%(len(a.cases)/6+1) == 0 {
 		t := cs.times()
 		run.Sample(map[string]any{
@@ -806,9 +846,23 @@ func runC13(c *core.Ctx) int {
 	})
 	run.Assume("the fake server evaluates a slice at start, start+step, ... <= end with millisecond timestamps and refuses what Prometheus refuses (step <= 0, end < start, more than 11000 points)")
 	run.Assume("a series is present at a timestamp iff the timestamp lies in one of its intervals; no staleness/lookback window is modelled")
+	run.Assume("a query whose slice was not delivered is only judged when RangeQuery returns a result without an error; a query that fails as a whole yields nothing to compare")
+	// The undelivered-slice scenario must have been observed, not only planned:
+	// when it was not, the floor on evaluations is made unreachable so that the
+	// run ends INCONCLUSIVE (unless it has violations to report).
+	floors := core.Floors{MinEvaluations: int64(n), MinNontrivial: n / 5, MaxInconclusiveFrac: 0.02}
+	planned := run.Counter("undelivered_slice_cases_planned")
+	useful := run.Counter("undelivered_slice_cases_with_other_slices_answered_and_samples_in_lost_slice")
+	kinds := run.DistinctCount("undelivered_slice_kinds_discriminating")
+	if planned > 0 && (useful*4 < planned || (n >= c13Quick && kinds < len(c13FaultKinds()))) {
+		fmt.Printf("NOTE property=C13: the undelivered-slice scenario observed too little (planned=%d, with another slice answered and samples in the lost slice=%d, kinds=%d of %d); the run cannot end HELD\n",
+			planned, useful, kinds, len(c13FaultKinds()))
+		run.Extra("undelivered_slice_floor_missed", true)
+		floors.MinEvaluations = int64(n) + 1
+	}
 	return run.Finish("exploration",
-		"cases: (start, end, step, lookback, client concurrency, 1-5 series with presence intervals) - every listed step (1s..25h, incl. 7s/13s/7m/11m/50m/70m/90m, 2h+1s..4h and above 4h) crossed with lookbacks from below one slice to 37 slices, starts/ends on, next to and between slice boundaries and with sub-second parts, presence patterns aimed at the seams (all, none, runs, alternating, random bits around every seam, one missing sample at/before/after a seam, run ending/starting at a seam, single points, one slice only, presence shorter than a step between grid points). Each case = 5 repetitions with different per-slice server delays (0-3ms) + one repetition answered from the client's cache, through FailoverGroup.RangeQuery of the real client. Oracle per repetition: (1) evaluated timestamps logged by the server form one gap-free progression of the step covering [start,end]; (2) every present grid point in exactly one returned range, no absent one in any, consecutive present points in the same range; (3) ranges equal run -> [first, last+step-1s] and equal AppendSampleToRanges+ExpandRangesEnd applied once to all samples; (4) all repetitions return the same ranges in the same sequence; plus crash / runaway allocation / data race reports of the child processes. Non-trivial = case whose query was cut into >= 2 slices and where some series changes presence within one step of a seam (by content hash).",
-		core.Floors{MinEvaluations: int64(n), MinNontrivial: n / 5, MaxInconclusiveFrac: 0.02})
+		"cases: (start, end, step, lookback, client concurrency, 1-5 series with presence intervals) - every listed step (1s..25h, incl. 7s/13s/7m/11m/50m/70m/90m, 2h+1s..4h and above 4h) crossed with lookbacks from below one slice to 37 slices, starts/ends on, next to and between slice boundaries and with sub-second parts, presence patterns aimed at the seams (all, none, runs, alternating, random bits around every seam, one missing sample at/before/after a seam, run ending/starting at a seam, single points, one slice only, presence shorter than a step between grid points). Each case = 5 repetitions with different per-slice server delays (0-3ms) + one repetition answered from the client's cache, through FailoverGroup.RangeQuery of the real client. Oracle per repetition: (1) evaluated timestamps logged by the server form one gap-free progression of the step covering [start,end]; (2) every present grid point in exactly one returned range, no absent one in any, consecutive present points in the same range; (3) ranges equal run -> [first, last+step-1s] and equal AppendSampleToRanges+ExpandRangesEnd applied once to all samples; (4) all repetitions return the same ranges in the same sequence; plus crash / runaway allocation / data race reports of the child processes. Every third sliced case additionally runs the undelivered-slice scenario: one more query during which the answer of 1-5 chosen slices never reaches the client (15 kinds: held past the client's per-request deadline, caller's context ended while the slice is held, connection cut before/inside the answer, HTTP 4xx/5xx with and without a Prometheus error body, 200 with status=error / not JSON / wrong result type / empty object) while the other slices are answered, then the same query again with a healthy server; whenever RangeQuery returns a result without an error it is judged by (1)-(3) over the grid of ALL slice requests the server saw, answered or not. Non-trivial = case whose query was cut into >= 2 slices and where some series changes presence within one step of a seam (by content hash).",
+		floors)
 }
 
 func c13Replay(c *core.Ctx, run *core.Run) int {
